@@ -639,7 +639,7 @@ pub fn serde_case<F: Flavour>(g: &GCase, instances: usize, st: &mut Stats, count
                     Fmt::Json => {
                         let doc = F::ser_json(&graph).map_err(|e| Fail { clause: "serialize.error", detail: e })?;
                         wire_shape_json(&doc, g, F::DIRECTED)?;
-                        F::de_json(doc.as_bytes()).map_err(|e| Fail { clause: "deserialize.own-output-rejected", detail: format!("{} :: {}", e, doc) })?
+                        F::de_json(doc.as_bytes()).map_err(|e| Fail { clause: "deserialize.own-output-rejected", detail: format!("{} :: {}", e, doc.chars().take(4000).collect::<String>()) })?
                     }
                     Fmt::Cbor => {
                         let doc = F::ser_cbor(&graph).map_err(|e| Fail { clause: "serialize.error", detail: e })?;
@@ -701,7 +701,7 @@ fn serde_all(g: &GCase, instances: usize, st: &mut Stats, counting: bool, only: 
 }
 
 pub fn run_c12(ctx: &mut Ctx) {
-    ctx.rule = "cases = (graph, container instance/insertion order, wire format) on all four container types: (a) every ordered multigraph on <=3 nodes with <=M edges (M in `enumeration_bounds`), once with pairwise distinct edge values and once with values i mod 2 (equal-valued parallel edges), distinct node values; (b) proptest graphs up to 40 nodes (self-loop / parallel-edge knobs). Oracle: deserialise(serialise(g)) has the same keys and node values, the same out-edge sequence per node (directed) / the same incident-edge multiset (undirected), satisfies the mirror/symmetry invariant, and the document (parsed as untyped JSON/CBOR value) is a 2-tuple listing exactly the members and exactly one entry per edge. Non-trivial = graph with a self-loop or parallel/antiparallel edges; distinct = hash of the graph.".into();
+    ctx.rule = "cases = (graph, container instance/insertion order, wire format) on all four container types: (a) every ordered multigraph on <=3 nodes with <=M edges (M in `enumeration_bounds`), once with pairwise distinct edge values and once with values i mod 2 (equal-valued parallel edges), distinct node values; (b) proptest graphs up to 40 nodes (self-loop / parallel-edge knobs); (c) constructed graphs of 64-300 nodes and dense graphs whose edge count in one document crosses 2^16 and 2^20 (`dense_constructed_nodes_x_outdegree`). Oracle: deserialise(serialise(g)) has the same keys and node values, the same out-edge sequence per node (directed) / the same incident-edge multiset (undirected), satisfies the mirror/symmetry invariant, and the document (parsed as untyped JSON/CBOR value) is a 2-tuple listing exactly the members and exactly one entry per edge. Non-trivial = graph with a self-loop or parallel/antiparallel edges; distinct = hash of the graph.".into();
     ctx.assumptions = vec!["JSON via serde_json and CBOR via serde_cbor stand for 'every wire format with a serde implementation'".into()];
     let tier = ctx.tier;
     let seed = ctx.seed;
@@ -754,6 +754,30 @@ pub fn run_c12(ctx: &mut Ctx) {
         }
         ctx.stats.merge(st);
         ctx.stats.extra.insert("large_constructed_sizes".into(), json!(sizes));
+    }
+    {
+        // dense graphs: the number of edges in one document crosses 2^16 and 2^20 (length prefixes, size hints and
+        // pre-sized buffers of the wire formats and of the deserialiser); one flavour per worker
+        let dense: Vec<(usize, usize)> = tier.pick(vec![(270, 260), (1100, 960)], vec![(270, 260), (1100, 960)]);
+        for &(n, d) in &dense {
+            let mut edges: Vec<Tri> = Vec::with_capacity(n * d);
+            for i in 0..n {
+                for j in 0..d {
+                    edges.push((i as Key, ((i + j + 1) % n) as Key, ((i + 2 * j) % 5) as EV));
+                }
+            }
+            let g = GCase { n, prio: (0..n as i32).map(|i| i * 7 - 11).collect(), edges };
+            let dense_st = parallel(4, |w| {
+                let mut st = Stats::new();
+                wd.tick();
+                st.class("graphs.dense-constructed");
+                serde_all(&g, 1, &mut st, true, Some([Di::NAME, SDi::NAME, Un::NAME, SUn::NAME][w]));
+                wd.tick();
+                st
+            });
+            ctx.stats.merge(dense_st);
+        }
+        ctx.stats.extra.insert("dense_constructed_nodes_x_outdegree".into(), json!(dense));
     }
     let cases = tier.pick(3000u32, 30_000u32);
     let random = parallel(tier.pick(8, 16), |w| {
